@@ -153,6 +153,28 @@ func (fr *Frame) onMakeChan(i *ssa.MakeChan, ref Term) {
 	}
 }
 
+// onAllocArray: `allocassume P(a)` of the executing function holds for every backing array it
+// allocates (ownership-style ghost facts: the array id is new, so nothing else is known about it).
+func (fr *Frame) onAllocArray(ref Term) {
+	fc := fr.contr
+	if fc == nil {
+		fc = fr.vc.eng.contractOf(fr.fn)
+	}
+	if fc == nil {
+		return
+	}
+	for _, c := range fc.AllocAssumes {
+		env := fr.specEnvHere().bind("a", &Val{T: ref, S: SInt, Typ: types.Typ[types.Int]})
+		t, err := fr.evalSpecAssume(c.Expr, env)
+		if err != nil {
+			fr.vc.specError(fr, c, err)
+			continue
+		}
+		fr.vc.assume(fr.reach, t)
+		fr.vc.globalsUsed = append(fr.vc.globalsUsed, "ghost definition for arrays allocated in "+relFuncName(fr.fn)+": "+c.Text)
+	}
+}
+
 // capturedVal: a closure's free variable is a pointer to the captured variable's cell; contract
 // expressions name the variable itself, so the cell is read (in state st).
 func (fr *Frame) capturedVal(fv *ssa.FreeVar, cell *Val, st *State) *Val {
